@@ -177,6 +177,96 @@ theorem link_absolute_exists_or_dropped_partial (cfg : Cfg) (root : Board) (ida 
       simp only [hc, Bool.false_eq_true, if_false] at hb
       exact key _ hb hr'
 
+/-! ### compileLink produces absolute paths -/
+
+theorem chopScope_go_take (scope : List Seg) : ∀ n, ∃ k, chopScope.go scope n = scope.take k ∧ (scope ≠ [] → 1 ≤ k)
+  | 0 => ⟨scope.length, by simp [chopScope.go], fun h => by cases scope <;> simp_all⟩
+  | i + 1 => by
+    obtain ⟨k, hk, hk1⟩ := chopScope_go_take scope i
+    unfold chopScope.go
+    cases hs : scope[i]? with
+    | none => exact ⟨k, by simpa using hk, hk1⟩
+    | some p =>
+      simp only
+      split
+      · exact ⟨i + 2, rfl, fun _ => by omega⟩
+      · split
+        · exact ⟨i + 1, rfl, fun _ => by omega⟩
+        · exact ⟨k, hk, hk1⟩
+
+theorem popUnderscores_take : ∀ (f : Nat) (scope link : List Seg),
+    ∃ k, (popUnderscores f scope link).1 = scope.take k
+  | 0, scope, _ => ⟨scope.length, by simp [popUnderscores]⟩
+  | f + 1, scope, link => by
+    unfold popUnderscores
+    cases link with
+    | nil => exact ⟨scope.length, by simp⟩
+    | cons x rest =>
+      simp only
+      split
+      · split
+        · exact ⟨scope.length, by simp⟩
+        · obtain ⟨k, hk⟩ := popUnderscores_take f (scope.take (scope.length - 2)) rest
+          exact ⟨min k (scope.length - 2), by rw [hk, List.take_take]⟩
+      · exact ⟨scope.length, by simp⟩
+
+/-- **compiled_link_absolute**: whenever `compileLink` rewrites a link written in a scope that starts at `root` (every
+    scope does: `IDA` of a map begins with the root field), the stored path starts with `root` — it is absolute. -/
+theorem compiled_link_absolute (scope link r : List Seg) (hroot : scope.head? = some rootSeg)
+    (h : compileLink scope link = some r) : r.head? = some rootSeg := by
+  unfold compileLink at h
+  cases scope with
+  | nil => simp at hroot
+  | cons s0 srest =>
+    simp only [List.head?_cons, Option.some.injEq] at hroot
+    subst hroot
+    cases link with
+    | nil => simp at h
+    | cons x lrest =>
+      simp only at h
+      split at h
+      · simp at h
+      · split at h
+        · simp at h
+        · obtain ⟨k, hk, hk1⟩ := chopScope_go_take (rootSeg :: srest) ((rootSeg :: srest).length - 1)
+          have hk1 := hk1 (by simp)
+          obtain ⟨j, hj⟩ := popUnderscores_take (x :: lrest).length (chopScope (rootSeg :: srest)) (x :: lrest)
+          cases hp : popUnderscores (x :: lrest).length (chopScope (rootSeg :: srest)) (x :: lrest) with
+          | mk sc lk =>
+            rw [hp] at hj
+            simp only at hj
+            simp only [hp, Option.some.injEq] at h
+            subst h
+            by_cases he : sc.isEmpty = true
+            · simp [he]
+            · simp only [he, Bool.false_eq_true, if_false]
+              have hsc : sc ≠ [] := by cases sc <;> simp_all
+              have : sc = (rootSeg :: srest).take (min j k) := by
+                rw [hj]; unfold chopScope; rw [hk, List.take_take]
+              cases hm : min j k with
+              | zero => rw [hm] at this; simp at this; exact absurd this hsc
+              | succ m => rw [hm] at this; rw [this]; simp
+
+/-! ### links inside imported files -/
+
+/-- **import_rebase_correct**: a link the imported file stored as `root.t₁…tₙ` (not starting with `_` after the root)
+    becomes `importing-path.t₁…tₙ`: it is rebased onto the importing board. -/
+theorem import_rebase_correct (imp tail : List Seg) (r : Seg)
+    (h : ∀ x, tail.head? = some x → isUnderscore x = false) :
+    extendLink imp (r :: tail) = imp ++ tail := by
+  unfold extendLink
+  cases tail with
+  | nil => simp [extendTail]
+  | cons x rest =>
+    have := h x rfl
+    simp [extendTail, this]
+
+/-- each leading `_` of the rest pops one board (a kind word and a name) off the importing path -/
+theorem import_rebase_underscore (p tail : List Seg) (k n r u : Seg) (hu : isUnderscore u = true) :
+    extendLink (p ++ [k, n]) (r :: u :: tail) = extendLink p (r :: tail) := by
+  unfold extendLink
+  simp [extendTail, hu]
+
 /-- **relink_points_to_file**: when the current board's file is `/D…/f` and the linked board's file is `/V…` (cleaned
     absolute paths of ordinary elements, as `resolveLinks` produces them for safe board names — C34's bridge lemma),
     `relink` replaces the link by a relative path `r` which, resolved against the directory of the file that contains
